@@ -596,6 +596,11 @@ func (c *runCfg) check(r *runResult) (class, msg string) {
 				if !c.m.usesLS {
 					return "status-cause", fmt.Sprintf("line-search error %v from a method without line search", err)
 				}
+				if res.Gradient != nil && normInf(res.Gradient) < 1e-12 {
+					// The methods stop with GradientThreshold when the gradient norm is below
+					// GradStopThreshold (default 1e-12): a line search must not even be started.
+					return "local-start-at-minimum-reports-failure", fmt.Sprintf("status Failure (%v) although the reported gradient %v is below the method's gradient threshold 1e-12: the run should have ended with GradientThreshold", err, res.Gradient)
+				}
 			default:
 				if c.m.name != "CmaEsChol" {
 					return "status-cause", fmt.Sprintf("unexplained failure: %v", err)
